@@ -2,6 +2,7 @@
 package all
 
 import (
+	"verif/harness/asmh7"
 	"verif/harness/c01"
 	"verif/harness/c02"
 	"verif/harness/c04"
@@ -28,16 +29,22 @@ func reg(pkg, fn string, e Entry) { Registry["verif/harness/"+pkg+"."+fn] = e }
 
 func init() {
 	reg("c01", "Step", func(a []int64) { c01.Step(int(a[0]), int(a[1]), int(a[2]), int(a[3])) })
+	reg("asmh7", "CloneAppendLemma", func(a []int64) { asmh7.CloneAppendLemma(int(a[0])) })
+	reg("c02", "Copy", func(a []int64) { c02.Copy(int(a[0]), int(a[1])) })
 	reg("c02", "Lockstep", func(a []int64) { c02.Lockstep(int(a[0]), int(a[1])) })
 	reg("c06", "Program", func(a []int64) { c06.Program(a[0], int(a[1]), int(a[2]), int(a[3])) })
 	reg("c08", "Step", func(a []int64) { c08.Step(int(a[0]), int(a[1]), int(a[2])) })
 	reg("c09", "TooSmall", func(a []int64) { c09.TooSmall(int(a[0])) })
+	reg("c09", "TwoRounds", func(a []int64) { c09.TwoRounds(int(a[0])) })
+	reg("c09", "Direct", func(a []int64) { c09.Direct(int(a[0])) })
 	reg("c09", "RoundTrip", func(a []int64) { c09.RoundTrip(int(a[0])) })
 	reg("c10", "LowHalf", func(a []int64) { c10.LowHalf(int(a[0]), int(a[1])) })
 	reg("c10", "Reads", func(a []int64) { c10.Reads(int(a[0]), int(a[1]), int(a[2]), int(a[3])) })
 	reg("c10", "Writes", func(a []int64) { c10.Writes(int(a[0]), int(a[1]), int(a[2]), int(a[3])) })
+	reg("c10", "Handles", func(a []int64) { c10.Handles(int(a[0]), int(a[1]), int(a[2])) })
+	reg("c11", "Long", func(a []int64) { c11.Long(int(a[0])) })
 	reg("c11", "Address", func(a []int64) { c11.Address(int(a[0])) })
-	reg("c12", "StepLemma", func(a []int64) { c12.StepLemma(int(a[0]), int(a[1]), int(a[2])) })
+	reg("c12", "StepLemma", func(a []int64) { c12.StepLemma(int(a[0]), int(a[1]), int(a[2]), int(a[3])) })
 	reg("c12", "RunUntil", func(a []int64) { c12.RunUntil(int(a[0]), int(a[1]), int(a[2])) })
 	reg("c12", "ResetClearsStop", func(a []int64) { c12.ResetClearsStop(int(a[0])) })
 	reg("c12", "Callbacks", func(a []int64) { c12.Callbacks(int(a[0]), int(a[1]), int(a[2])) })
@@ -49,12 +56,15 @@ func init() {
 	reg("c05", "BusPages", func(a []int64) { c05.BusPages(int(a[0])) })
 	reg("c05", "PakPages", func(a []int64) { c05.PakPages(int(a[0])) })
 	reg("c13", "Route", func(a []int64) { c13.Route(int(a[0])) })
+	reg("c13", "Route24", func(a []int64) { c13.Route24(int(a[0])) })
 	reg("c13", "Misaligned", func(a []int64) { c13.Misaligned(int(a[0]), int(a[1]), int(a[2])) })
 	reg("c13", "Dump", func(a []int64) { c13.Dump(int(a[0]), int(a[1]), int(a[2])) })
 	reg("c14", "Line", func(a []int64) { c14.Line(int(a[0]), int(a[1]), int(a[2]), int(a[3])) })
 	reg("c14", "LoggerOnOff", func(a []int64) { c14.LoggerOnOff(int(a[0]), int(a[1]), int(a[2])) })
+	reg("c14", "LoggerAnyBudget", func(a []int64) { c14.LoggerAnyBudget(int(a[0])) })
 	reg("c14", "LoggerLongRun", func(a []int64) { c14.LoggerLongRun(int(a[0])) })
 	reg("c15", "Listing", func(a []int64) { c15.Listing(a[0], int(a[1]), int(a[2]), int(a[3]), int(a[4])) })
+	reg("c15", "Pieces", func(a []int64) { c15.Pieces(a[0], int(a[1]), int(a[2]), int(a[3]), int(a[4]), int(a[5]), int(a[6])) })
 	reg("c16", "Split", func(a []int64) { c16.Split(a[0], int(a[1]), int(a[2]), int(a[3]), int(a[4])) })
 	reg("c16", "TwoClones", func(a []int64) { c16.TwoClones(int(a[0]), int(a[1])) })
 	reg("c16", "AppendTooBig", func(a []int64) { c16.AppendTooBig(int(a[0]), int(a[1]), int(a[2]), int(a[3])) })
